@@ -657,3 +657,53 @@ def _install_skip2(reg):
         loops={0: LoopContract("for m_trap in minimal_traps", stm_loop, havoc_heap={"self": ALLF})},
         local_types={"minimal_traps": LS},
     ), method_of="SD")
+
+
+def _install_skip3(reg):
+    from pyvc.externals_aeon import TNetObj, bn_net_of, net_of
+    NODEF = ("space", "expanded", "skipped", "parent", "cand", "seeds", "sets", "ppn", "pbn", "pnfvs")
+    INVN = [nm for nm, _ in S.inv(M.View(_dummy_ho()))]
+    EMPTYS = z3.K(Name, z3.IntVal(-1))
+    ALLF = ["K", "space", "expanded", "skipped", "parent", "cand", "seeds", "sets", "ppn", "pbn", "pnfvs",
+            "edge", "motifs", "motif0", "succsig", "depth", "index"]
+
+    def N(v):
+        return S.net(v)
+
+    def pick(fn, nm):
+        return lambda c: dict(fn(c))[nm]
+
+    # percolate_network: assumed (AEON BDD restriction, infer_valid_graph, inline_constants)
+    reg.add(Contract(
+        "biobalm.space_utils.percolate_network", trusted=True,
+        params=[("bn", TNetObj), ("space", TSpace), ("symbolic_network", TOpt(TGraph)), ("remove_constants", TBool)],
+        defaults={"symbolic_network": None, "remove_constants": False}, result_type=TNetObj,
+        properties=("C10", "C16"),
+        ensures=[("value", lambda c: z3.Implies(c.remove_constants, c.result == T.PercNetObj(c.bn, c.space)))],
+        note="update functions restricted by BDD substitution (restrict_expression), graph re-inferred, constants inlined by AEON",
+    ))
+
+    def pbn_post(c):
+        v, o, n, r = c.self, c.old.self, c.node_id, c.result
+        fixed = T.card(o.space[n]) == T.nvars(N(o))
+        return [
+            ("value_independent_of_caches", z3.If(fixed, r == T.EmptyBN, r == T.PercNetObj(o.net, o.space[n]))),
+            ("only_this_cache_filled", z3.And(
+                v.K == o.K, v.index == o.index, S.frame_edges(v, o), v.net == o.net, v.sym == o.sym, v.pn == o.pn,
+                S.frame_nodes(v, o, fields=("space", "expanded", "skipped", "parent", "cand", "seeds", "sets", "ppn", "pnfvs", "succsig", "depth")),
+                S.frame_nodes(v, o, except_ids=(n,), fields=("pbn",)),
+                z3.Or(v.pbn[n] == o.pbn[n], z3.And(z3.Not(fixed), v.pbn[n] == M.OptBN.some(r))))),
+        ] + [("inv." + nm, g) for nm, g in S.inv(v)]
+
+    reg.add(Contract(
+        "biobalm.succession_diagram.SuccessionDiagram.node_percolated_network",
+        params=[("self", SD), ("node_id", TInt), ("compute", TBool)], defaults={"compute": False}, result_type=TNetObj,
+        properties=("C10", "C16"),
+        requires=[lambda c: S.inv_all(c.self), lambda c: S.valid(c.self, c.node_id)],
+        modifies={"self": ["pbn"]},
+        may_raise={"KeyError": {"only_when": lambda c: z3.And(z3.Not(c.compute), M.OptBN.is_none(c.self.pbn[c.node_id]),
+                                                              T.card(c.self.space[c.node_id]) != T.nvars(N(c.self)))}},
+        raises={"KeyError": [("nothing_changed", lambda c: z3.And(c.self.pbn == c.old.self.pbn, z3.Not(c.compute)))]},
+        ensures=[(nm, pick(pbn_post, nm)) for nm in ["value_independent_of_caches", "only_this_cache_filled"] + ["inv." + x for x in INVN]],
+        local_types={"network": M.OptBN},
+    ), method_of="SD")
